@@ -22,7 +22,7 @@ BUILTIN = {
     'int8_t': 'int8_t', 'int16_t': 'int16_t', 'int32_t': 'int32_t', 'int64_t': 'int64_t',
     'std::streamsize': 'long', 'in_port_t': 'uint16_t', 'std::uint8_t': 'uint8_t', 'std::uint16_t': 'uint16_t',
     'std::uint32_t': 'uint32_t', 'std::uint64_t': 'uint64_t', 'std::int64_t': 'int64_t', 'std::int32_t': 'int32_t',
-    'off_t': 'long', 'std::string::size_type': 'size_t', 'size_type': 'size_t', 'std::streamsize': 'long', 'nullptr_t': 'void *', 'std::nullptr_t': 'void *', 'time_t': 'long', 'std::time_t': 'long',
+    'std::char_traits<char>::int_type': 'int', 'int_type': 'int', 'off_t': 'long', 'std::string::size_type': 'size_t', 'size_type': 'size_t', 'std::streamsize': 'long', 'nullptr_t': 'void *', 'std::nullptr_t': 'void *', 'time_t': 'long', 'std::time_t': 'long',
 }
 
 TYPE_NORMALISE = [
@@ -546,7 +546,7 @@ class Lower:
                 pt = self.qt(ps[i])
             elif ptypes and i < len(ptypes):
                 pt = ptypes[i]
-            if pt and self.is_ref(pt):
+            if pt and self.is_ref(pt) and not (drop_defaults and self.by_value_param(pt)):
                 x = self.ref_arg(a, x) if a.get('kind') != 'CXXDefaultArgExpr' else self.addr(x)
             out.append(x)
         return out
@@ -727,7 +727,7 @@ class Lower:
             raise
         if isinstance(name, dict):
             return self.stub_expand(name, None, [self.E(a) for a in ins[1:]], n)
-        argl = self.args(tgt, ins[1:], self.param_types_from_sig(self.qt(r)))
+        argl = self.args(tgt, ins[1:], self.param_types_from_sig(self.qt(r)), drop_defaults=(name not in self.fn_info))
         isref = self.call_returns_ref(tgt, r) or n.get('valueCategory') == 'lvalue'
         x = self.emit_call(name, argl, n, ref=isref)
         if isref:
@@ -795,7 +795,8 @@ class Lower:
         rt = self.ctype(n['type']) if (n.get('type') or {}).get('qualType', 'void') != 'void' else 'void'
         if isref and rt != 'void':
             rt += ' *'
-        key = (label, tuple(params), rt)
+        refmode = self.cur_spec.get('dflt_ref', 'static')
+        key = (label, tuple(params), rt, refmode if isref else '')
         name = self.dflt_names.get(key)
         if name is None:
             name = 'vs_dflt_%s_%d' % (self.mangle(label)[-48:], len(self.dflt_names))
@@ -807,7 +808,10 @@ class Lower:
             if not nothrow:
                 text += '    { _Bool th; if (th) { vs_exc = VS_EXC_OTHER_STD; } }\n'
             if rt.endswith('*') and isref:
-                text += '    %s *obj = malloc(sizeof(*obj)); __CPROVER_assume(obj != 0);\n    return obj;\n' % rt[:-1].strip()
+                if refmode == 'malloc':   # a fresh object (assignable by the caller under dfcc); not usable inside loop contracts
+                    text += '    %s *obj = malloc(sizeof(*obj)); __CPROVER_assume(obj != 0);\n    return obj;\n' % rt[:-1].strip()
+                else:
+                    text += '    static %s obj; { %s t; obj = t; }\n    return &obj;\n' % (rt[:-1].strip(), rt[:-1].strip())
             elif rt != 'void':
                 text += '    %s r;\n    return r;\n' % rt
             text += '}\n'
